@@ -14,6 +14,7 @@ const char *engine_for_check(const std::string &check)
     if (id == "C13" || id == "C14") return "doc";
     if (id == "C15" || id == "C05" || id == "C06") return "array";
     if (id == "C16" || id == "C17" || id == "C20" || id == "C10" || id == "C07") return "cal";
+    if (id == "C09") return "corrupt";
     if (const char *e = getenv("VSIM_ENGINE")) return e;
     return nullptr;
 }
